@@ -311,6 +311,11 @@ func runWorkers(def *CheckDef, c *Ctx, kind string, shards int, race bool, mode 
 				}
 				tail = s
 			}
+			if r.err != nil && strings.Contains(r.err.Error(), "signal: killed") && !strings.Contains(tail, "goroutine ") {
+				// killed from outside (the kernel's out-of-memory killer, an operator): not a verdict on the code under test
+				merged.InfraError(fmt.Sprintf("worker %d of %s was killed from outside (signal: killed; out of memory?)", r.i, def.ID))
+				continue
+			}
 			if race && strings.Contains(tail, "WARNING: DATA RACE") {
 				merged.Violate("race:process-died", fmt.Sprintf("race companion worker %d died: %v\n%s", r.i, r.err, tail), map[string]any{"log": r.log})
 			} else {
